@@ -26,15 +26,41 @@ RAW = {"malloc", "calloc", "realloc", "free", "strdup", "strndup"}
 EXC_TABLE = os.path.join(VERIF, "tables", "c15_raw_alloc_exceptions.json")
 
 
-def gate_cond(cond):
-    """True if cond is  libast_debug_level >= <const>  ; returns the const"""
+def gate_pol(cond):
+    """(level, polarity) if cond is - up to negation, parentheses and `? 1 : 0` wrappers - the runtime gate
+    libast_debug_level >= <const>;  polarity False means the condition is the negated gate"""
     c = X.strip(cond)
-    if c.get("k") == "bin" and c.get("op") in (">=", ">"):
+    if c is None:
+        return None
+    if c.get("k") == "un" and c.get("op") == "!":
+        g = gate_pol(c["ch"][0])
+        return (g[0], not g[1]) if g else None
+    if c.get("k") == "cond":
+        tv, fv = X.const_val(c["ch"][1]), X.const_val(c["ch"][2])
+        if tv is not None and fv is not None and bool(tv) != bool(fv):
+            g = gate_pol(c["ch"][0])
+            return (g[0], g[1] if tv else not g[1]) if g else None
+        return None
+    if c.get("k") == "bin" and c.get("op") in ("!=", "==") and X.const_val(c["ch"][1]) == 0:
+        g = gate_pol(c["ch"][0])
+        return (g[0], g[1] if c["op"] == "!=" else not g[1]) if g else None
+    if c.get("k") == "bin" and c.get("op") in (">=", ">", "<", "<="):
         a = X.strip(c["ch"][0])
         if a.get("k") == "ref" and a.get("n") == "libast_debug_level" and X.const_val(c["ch"][1]) is not None:
             v = X.const_val(c["ch"][1])
-            return v if c["op"] == ">=" else v + 1
+            if c["op"] == ">=":
+                return (v, True)
+            if c["op"] == ">":
+                return (v + 1, True)
+            if c["op"] == "<":
+                return (v, False)
+            return (v + 1, False)
     return None
+
+
+def gate_cond(cond):
+    g = gate_pol(cond)
+    return g[0] if g else None
 
 
 def is_param(e, fn, name=None):
@@ -53,10 +79,11 @@ def path_summary(fn, p, mem_level):
     unknown = []
     for ev in p:
         if ev[0] == "cond":
-            g = gate_cond(ev[1])
-            if g is not None:
-                if g == mem_level:
-                    gate = ev[2] if gate is None else (gate and ev[2])
+            gp = gate_pol(ev[1])
+            if gp is not None:
+                if gp[0] == mem_level:
+                    truth_ = ev[2] if gp[1] else (not ev[2])
+                    gate = truth_ if gate is None else (gate and truth_)
                 continue   # other debug-level tests (D_MEM output, ASSERT arms) do not matter
             facts_ = X.implied(ev[1], ev[2])
             hit = False
@@ -379,9 +406,9 @@ def run(tier="quick", mktable=False):
         def refine(state, cond, truth, blk):
             if isinstance(truth, tuple):
                 return state
-            gv = gate_cond(cond)
-            if gv is not None and truth:
-                return state | {("gate", gv)}
+            gp = gate_pol(cond)
+            if gp is not None and truth == gp[1]:
+                return state | {("gate", gp[0])}
             return state
 
         def visit(state, n, blk):
@@ -477,8 +504,10 @@ def run(tier="quick", mktable=False):
            proof="%d raw allocator calls outside mem.c, all through the allocation macros or frozen exceptions" % nraw, detail="see individual reports")
     # T8
     nb = 0
-    for nm in ("memrec_add_var", "memrec_chg_var"):
-        fn = prog.need(nm)
+    # every bounded copy into a record's `file` field, wherever mem.c does it (the two edit primitives today; a shared helper
+    # after a refactoring)
+    for fn in u.functions.values():
+        nm = fn.name
         for c in X.calls_in(fn.body):
             if X.callee_name(c) in ("spiftool_safe_strncpy", "strncpy", "memcpy"):
                 a = c["ch"][1:]
